@@ -12,6 +12,7 @@
 #include <stdint.h>
 #include <stddef.h>
 #include <wchar.h>
+#include "igzip_lib.h"
 
 /* ---- crc32_gzip_refl (crc/crc32_gzip_refl_*.asm through crc_multibinary.asm) ---- */
 extern uint32_t w_crc_init, w_crc_calls, g_crc_ret;
@@ -50,6 +51,53 @@ __CPROVER_requires(n <= 0x1000000 && __CPROVER_w_ok(s, n * sizeof(wchar_t)))
 __CPROVER_assigns(__CPROVER_object_upto(s, n * sizeof(wchar_t)))
 __CPROVER_ensures(g_wm_i < n ==> s[g_wm_i] == c)
 __CPROVER_ensures(__CPROVER_return_value == s);
+/* clang-format on */
+
+/* ---- level-0 compression kernels (igzip_body.asm / igzip_finish.asm through igzip_multibinary.asm) ----
+ * ASSUMED (from update_state() and the exits of isal_deflate_body_base / isal_deflate_finish_base, the
+ * portable twins): input and output counters move together and only forwards, the bit buffer is left
+ * with fewer than 8 clean pending bits, has_hist becomes IGZIP_HIST when input was consumed, and the
+ * state afterwards is one of those the portable code can leave.  The compressed *bytes* are not modelled
+ * (no clause that uses these stubs reads them); the hash table is outside what the callers read. */
+#define STUB_K_IN (__CPROVER_old(stream->avail_in) - stream->avail_in)
+#define STUB_K_OUT (__CPROVER_old(stream->avail_out) - stream->avail_out)
+#define STUB_PASS_FRAME                                                                            \
+        stream->next_in, stream->avail_in, stream->total_in, stream->next_out, stream->avail_out,  \
+                stream->total_out, stream->internal_state.state, stream->internal_state.has_hist,  \
+                stream->internal_state.has_eob, stream->internal_state.bitbuf
+#define STUB_PASS_POST                                                                             \
+        __CPROVER_ensures(stream->avail_in <= __CPROVER_old(stream->avail_in) &&                   \
+                          stream->next_in == __CPROVER_old(stream->next_in) + STUB_K_IN &&         \
+                          stream->total_in == __CPROVER_old(stream->total_in) + STUB_K_IN)         \
+        __CPROVER_ensures(stream->avail_out <= __CPROVER_old(stream->avail_out) &&                 \
+                          stream->next_out == __CPROVER_old(stream->next_out) + STUB_K_OUT &&      \
+                          stream->total_out == __CPROVER_old(stream->total_out) + STUB_K_OUT)      \
+        __CPROVER_ensures(stream->internal_state.bitbuf.m_bit_count < 8 &&                         \
+                          (stream->internal_state.bitbuf.m_bits >>                                 \
+                           stream->internal_state.bitbuf.m_bit_count) == 0)                        \
+        __CPROVER_ensures(stream->internal_state.has_hist ==                                       \
+                          (STUB_K_IN > 0 ? IGZIP_HIST : __CPROVER_old(stream->internal_state.has_hist)))
+void
+isal_deflate_body(struct isal_zstream *stream)
+        /* clang-format off */
+__CPROVER_requires(stream->internal_state.state == ZSTATE_BODY)
+__CPROVER_assigns(STUB_PASS_FRAME)
+STUB_PASS_POST
+__CPROVER_ensures(stream->internal_state.state == ZSTATE_BODY ||
+                  stream->internal_state.state == ZSTATE_FLUSH_READ_BUFFER)
+__CPROVER_ensures(stream->internal_state.has_eob == __CPROVER_old(stream->internal_state.has_eob));
+/* clang-format on */
+void
+isal_deflate_finish(struct isal_zstream *stream)
+        /* clang-format off */
+__CPROVER_requires(stream->internal_state.state == ZSTATE_FLUSH_READ_BUFFER)
+__CPROVER_assigns(STUB_PASS_FRAME)
+STUB_PASS_POST
+__CPROVER_ensures(stream->internal_state.state == ZSTATE_FLUSH_READ_BUFFER ||
+                  stream->internal_state.state == ZSTATE_SYNC_FLUSH ||
+                  stream->internal_state.state == ZSTATE_TRL)
+__CPROVER_ensures(stream->internal_state.state != ZSTATE_FLUSH_READ_BUFFER ==>
+                  (stream->internal_state.has_eob == 1 && stream->avail_in == 0));
 /* clang-format on */
 
 #endif
